@@ -222,7 +222,8 @@ class AdvancedTag(object):
 
         # Check for special "className"
         if name == "className":
-            value = stripWordsOnly( tostr(value) )
+            # No value ( e.x. <div class> or className = None ) means no class names, not the name "None"
+            value = stripWordsOnly( tostr(value) if value is not None else '' )
             object.__setattr__(self, '_classNames', [x for x in value.split(' ') if x])
             return value
 
